@@ -452,6 +452,30 @@ def run(ctx: Ctx) -> RuleResult:
     res.tables['guarded_used'] = sorted('%s:%s' % x for x in used_guarded)
     res.require_instances(len(spans), 14, 'files contributing stand-alone sections')
     res.require_instances(n_b, 250, 'functions in the reconstructed module')
+    # the command line of the generator: every switch it registers is also in the list of options handed to Lark(...)
+    # (a switch that is parsed but not forwarded is silently ignored: the generated parser is built with the default)
+    tm = repo.module('lark.tools')
+    n_arms = 0
+    for lp_ in [x for x in tm.tree.body if isinstance(x, ast.For)]:
+        arms = []
+        for st_ in ast.walk(lp_):
+            if isinstance(st_, ast.If):
+                arms.append(st_.body)
+                if st_.orelse and not (len(st_.orelse) == 1 and isinstance(st_.orelse[0], ast.If)):
+                    arms.append(st_.orelse)
+        for arm in arms:
+            reg = any(isinstance(c_, ast.Call) and norm(c_.func).endswith('.add_argument') for s_ in arm for c_ in ast.walk(s_))
+            if not reg:
+                continue
+            n_arms += 1
+            fwd = any(isinstance(c_, ast.Call) and norm(c_.func) == 'options.append' for s_ in arm for c_ in ast.walk(s_))
+            res.ob('lark/tools/__init__.py:%d' % arm[0].lineno, 'a registered command-line switch is also recorded in `options`', fwd)
+            if not fwd:
+                res.finding('lark.tools', arm[0], 'a command-line switch is registered with the argument parser but not added to `options`: the '
+                            'generator accepts it and then builds the parser without it', construct='cli-flag-not-forwarded',
+                            module=tm, props=['C11'])
+    if n_arms < 2:
+        raise AnalysisError('R-STANDALONE-CLOSURE: found %d flag-registration arms in lark/tools/__init__.py, expected 2' % n_arms)
     # the entry point of the generated module exists and calls the loader the module ships
     ok = 'Lark_StandAlone' in bound and 'Lark' in bound and 'DATA' in bound and 'MEMO' in bound \
         and 'Shift' in bound and 'Reduce' in bound
